@@ -71,6 +71,13 @@ impl DynamicConstraintsEncoder {
         self.solver_vars.len() - 1
     }
 
+    // Marks the solver variables up to `var` as used outside this encoder, so that they are not given to new arguments or selectors.
+    pub(crate) fn reserve_solver_vars_up_to(&mut self, var: usize) {
+        while self.solver_vars.len() <= var {
+            self.solver_vars.push(SolverVarType::Ignored);
+        }
+    }
+
     pub(crate) fn enable_update_attacks_to_constraints(&mut self, v: bool) {
         self.update_attacks_to_constraints = v;
     }
